@@ -67,7 +67,8 @@ def match_lane(tr1, SE, E, lane, outE, cands, default):
             a, b = outE[n], out1[n]
             a = a[lane] if tuple(a.shape) != tuple(b.shape) else a
             a = arr0(a) if not isinstance(a, np.ndarray) else a
-            goals[n] = eq_arr(a, b)
+            # (a lane whose shape is not the single-environment result's shape -- e.g. the buffer laid out as (steps, envs) -- is a definite mismatch)
+            goals[n] = eq_arr(a, b) if tuple(a.shape) == tuple(b.shape) else False
         nsyn = sum(1 for g in goals.values() if g is True)
         if best is None or nsyn > best[2]:
             best = (K, goals, nsyn)
@@ -138,7 +139,7 @@ def check_onpolicy_lanes(ck, kind, E=2, S_=2):
                 x = concrete.real_to_float(realE[n])
                 y = concrete.real_to_float(real1[n])
                 x = x[lane] if x.shape != y.shape else x
-                bad = not np.allclose(x, y, rtol=1e-3, atol=1e-3, equal_nan=True)
+                bad = x.shape != y.shape or not np.allclose(x, y, rtol=1e-3, atol=1e-3, equal_nan=True)
                 return bad, {"field": n, "lane": lane, "vectorised": np.asarray(x).reshape(-1)[:8].tolist(), "single": np.asarray(y).reshape(-1)[:8].tolist()}
             ck.prove(f"lanes.{fld}@{name},lane={lane}", [], goal_n, replay=rp)
     ck.fact(f"lanes.per_env_keys_distinct@{name}", all(not lane_keys[i].eq(lane_keys[j]) for i in range(E) for j in range(i + 1, E)), f"per-environment keys {lane_keys}")
